@@ -15,8 +15,11 @@ SIZES = {
     "neareq": (1500, 15000),
     "msetdup": (200, 2500),
     "huge": (12, 60),
+    "csv": (200, 2500),
+    "pyobj": (200, 2500),
+    "plist": (150, 2000),
 }
-DEFAULT_KINDS = ["small", "random", "skewed", "mset", "msetdup", "xml", "huge"]
+DEFAULT_KINDS = ["small", "random", "skewed", "mset", "msetdup", "xml", "huge", "csv", "pyobj", "plist"]
 
 
 def innermost_class(ev, step):
